@@ -254,6 +254,38 @@ def api_configs(item):
                                                                                           "solo": solo},
                                                replay={"api": ["cloned", c, d, n]})
                                 break
+            # asymmetric sharing: one stream's I/O is slow (it is accounted late, with an old start time), the other's
+            # is instantaneous and keeps folding the window forward (reset_rate 1)
+            for c, dA, dB, n in itertools.product([4, 8, 24], [2.0, 0.75, 3.0], [0.0, 0.25], [2, 4, 6]):
+                base = a.StreamThrottle(read=a.Throttle(limit=L, reset_rate=1), write=a.Throttle())
+                logs = [[], []]
+                streams = []
+                for k, d in enumerate((dA, dB)):
+                    r = FakeReader(logs[k])
+                    r.chunk, r.duration = b"x" * c, d
+                    streams.append(a.ThrottleStreamIO(r, FakeWriter(logs[k]), throttles={"x": base}))
+
+                async def one(s_, m):
+                    for _ in range(m):
+                        await s_.read(c)
+
+                async def main2():
+                    await asyncio.gather(one(streams[0], max(1, n // 2)), one(streams[1], n))
+
+                w.loop._vtime = 0.0
+                w.loop.iterations = 0
+                w.run(main2())
+                part.evaluations += 1
+                allstarts = sorted((t, b) for lg in logs for _, t, b in lg)
+                t0 = allstarts[0][0]
+                moved = 0
+                for t, b in allstarts:
+                    if moved > L * (t - t0) + 2 * c + EPS:
+                        part.violation({"kind": "shared-limit-exceeded", "asymmetric": True},
+                                       {"c": c, "dA": dA, "dB": dB, "n": n, "starts": allstarts[:12], "at": t, "moved": moved},
+                                       replay={"api": ["shared-asym", c, dA, dB, n]})
+                        break
+                    moved += b
         part.states.add(report.fp([kind, length]))
         part.nontrivial.add(report.fp([kind, length]))
         part.sample({"config": kind, "length": length}, limit=1)
